@@ -401,7 +401,15 @@ func knownType(t byte) bool {
 	return false
 }
 
+// AnySQLState: the code field of an ErrorResponse may be any text (set while errors are reported whose
+// codes the handler chose freely; the grammar of the message does not depend on the code being a
+// well-formed SQLSTATE).
+var AnySQLState bool
+
 func validSQLState(s string) bool {
+	if AnySQLState {
+		return true
+	}
 	if len(s) != 5 {
 		return false
 	}
